@@ -8,7 +8,7 @@ use crate::engine::{h64, Out, Rng};
 use crate::val::{Outcome, Val};
 use crate::vocab::abstract_chars;
 use num_complex::Complex;
-use rust_decimal::Decimal;
+use rust_decimal::prelude::*;
 use serde_json::json;
 use std::io::Write;
 use string_calculator::Number;
@@ -33,6 +33,15 @@ pub fn key_pool() -> Vec<Key> {
     }
     for ex in ["@", "@*2", "@/3", "1/@", "@+0.1", "round(@)", "@!", "sqrt(@)", "(1", "1/0", "@*1.10", "min(@,1.50)", "ln(@)"] {
         for ph in [Decimal::new(15, 1), Decimal::new(150, 2), Decimal::ZERO, Decimal::new(-3, 0), Decimal::new(3, 0), Decimal::MAX] { v.push(Key { e: "dec", expr: ex.to_string(), ph: Val::D(ph) }); }
+    }
+    // iterative solvers and series (Lambert W, Gamma, ilog, roots, exp / ln of eval_decimal) at neighbouring arguments: a solver that
+    // remembers its last answer (warm start, memo) shows when the same function is called again close by
+    let near: [f64; 9] = [-0.36, -0.3678, -0.35, 0.5, 0.51, 2.5, 2.55, 26.5, 27.0];
+    for ex in ["w(@)", "lambert_w(@)+1", "max(w(@),w(@-0.01))", "@!", "sqrt(@)", "ln(@)", "exp(@)", "ilog(@,1.5)", "root(3,@)", "2^@", "log(@,3)"] {
+        for x in near {
+            v.push(Key { e: "dec", expr: ex.to_string(), ph: Val::D(Decimal::from_f64_retain(x).unwrap().round_dp(4)) });
+            if !ex.starts_with("max(") { v.push(Key { e: "f64", expr: ex.to_string(), ph: f(x) }); v.push(Key { e: "num", expr: ex.to_string(), ph: Val::N(Number::Float(x)) }); }
+        }
     }
     for ex in ["@", "@*i", "1/@", "sqrt(@)", "@^2", "-@", "ln(@)", "abs(@)", "(1", "@@", "2i3", "exp(@*pi)"] {
         for ph in [Complex::new(0.0, 0.0), Complex::new(-0.0, 0.0), Complex::new(0.0, -0.0), Complex::new(-1.0, 0.0), Complex::new(-1.0, -0.0), Complex::new(1.5, -2.0), Complex::new(f64::NAN, 1.0)] {
